@@ -38,6 +38,7 @@ Record sub := mkSub {
   s_id : N;                  (* number of the carrier, in creation order *)
   s_wire : list frame;       (* written by the remote, not read yet *)
   s_eof : bool; s_werr : bool; s_flush : bool;
+  s_gate : bool;             (* poll_shutdown is pending: closing the substream does not complete *)
   s_out : list frame;        (* written by the local side *)
   s_hist : list frame;       (* ghost: everything the remote wrote *)
   s_hs : list frame;         (* ghost: frames consumed by the handshake service *)
@@ -45,28 +46,30 @@ Record sub := mkSub {
   s_ohs : N                  (* ghost: frames written by the handshake service *)
 }.
 
-Definition new_sub (id : N) : sub := mkSub id [] false false false [] [] [] [] 0.
+Definition new_sub (id : N) : sub := mkSub id [] false false false false [] [] [] [] 0.
 
 (* what the remote (the environment) does to a carrier *)
-Inductive envk := EFrame (t : frame) | EEof | EWerr | EFlush.
+Inductive envk := EFrame (t : frame) | EEof | EWerr | EFlush | EGate | EUngate.
 Definition env_sub (x : envk) (s : sub) : sub :=
   match x with
-  | EFrame t => mkSub (s_id s) (s_wire s ++ [t]) (s_eof s) (s_werr s) (s_flush s) (s_out s) (s_hist s ++ [t]) (s_hs s) (s_cn s) (s_ohs s)
-  | EEof => mkSub (s_id s) (s_wire s) true (s_werr s) (s_flush s) (s_out s) (s_hist s) (s_hs s) (s_cn s) (s_ohs s)
-  | EWerr => mkSub (s_id s) (s_wire s) (s_eof s) true (s_flush s) (s_out s) (s_hist s) (s_hs s) (s_cn s) (s_ohs s)
-  | EFlush => mkSub (s_id s) (s_wire s) (s_eof s) (s_werr s) true (s_out s) (s_hist s) (s_hs s) (s_cn s) (s_ohs s)
+  | EFrame t => mkSub (s_id s) (s_wire s ++ [t]) (s_eof s) (s_werr s) (s_flush s) (s_gate s) (s_out s) (s_hist s ++ [t]) (s_hs s) (s_cn s) (s_ohs s)
+  | EEof => mkSub (s_id s) (s_wire s) true (s_werr s) (s_flush s) (s_gate s) (s_out s) (s_hist s) (s_hs s) (s_cn s) (s_ohs s)
+  | EWerr => mkSub (s_id s) (s_wire s) (s_eof s) true (s_flush s) (s_gate s) (s_out s) (s_hist s) (s_hs s) (s_cn s) (s_ohs s)
+  | EFlush => mkSub (s_id s) (s_wire s) (s_eof s) (s_werr s) true (s_gate s) (s_out s) (s_hist s) (s_hs s) (s_cn s) (s_ohs s)
+  | EGate => mkSub (s_id s) (s_wire s) (s_eof s) (s_werr s) (s_flush s) true (s_out s) (s_hist s) (s_hs s) (s_cn s) (s_ohs s)
+  | EUngate => mkSub (s_id s) (s_wire s) (s_eof s) (s_werr s) (s_flush s) false (s_out s) (s_hist s) (s_hs s) (s_cn s) (s_ohs s)
   end.
 Definition touch (id : N) (x : envk) (s : sub) : sub := if s_id s =? id then env_sub x s else s.
 
 (* the handshake service reads the head of the wire / writes the local handshake; the Connection reads / writes *)
 Definition hs_read (s : sub) (f : frame) (w : list frame) : sub :=
-  mkSub (s_id s) w (s_eof s) (s_werr s) (s_flush s) (s_out s) (s_hist s) (s_hs s ++ [f]) (s_cn s) (s_ohs s).
+  mkSub (s_id s) w (s_eof s) (s_werr s) (s_flush s) (s_gate s) (s_out s) (s_hist s) (s_hs s ++ [f]) (s_cn s) (s_ohs s).
 Definition hs_write (s : sub) : sub :=
-  mkSub (s_id s) (s_wire s) (s_eof s) (s_werr s) (s_flush s) (s_out s ++ [LOCAL_HS]) (s_hist s) (s_hs s) (s_cn s) (s_ohs s + 1).
+  mkSub (s_id s) (s_wire s) (s_eof s) (s_werr s) (s_flush s) (s_gate s) (s_out s ++ [LOCAL_HS]) (s_hist s) (s_hs s) (s_cn s) (s_ohs s + 1).
 Definition cn_read (s : sub) (f : frame) (w : list frame) : sub :=
-  mkSub (s_id s) w (s_eof s) (s_werr s) (s_flush s) (s_out s) (s_hist s) (s_hs s) (s_cn s ++ [f]) (s_ohs s).
+  mkSub (s_id s) w (s_eof s) (s_werr s) (s_flush s) (s_gate s) (s_out s) (s_hist s) (s_hs s) (s_cn s ++ [f]) (s_ohs s).
 Definition cn_write (s : sub) (q : list frame) : sub :=
-  mkSub (s_id s) (s_wire s) (s_eof s) (s_werr s) (s_flush s) (s_out s ++ q) (s_hist s) (s_hs s) (s_cn s) (s_ohs s).
+  mkSub (s_id s) (s_wire s) (s_eof s) (s_werr s) (s_flush s) (s_gate s) (s_out s ++ q) (s_hist s) (s_hs s) (s_cn s) (s_ohs s).
 
 (* ---------------------------------------------------------------- HandshakeService *)
 Inductive hstage := SSend | SSent | SRead.
@@ -122,13 +125,21 @@ Record vent := mkV { v_id : N; v_peer : peer; v_ans : option (option bool) }.
 Inductive hev := HValidate (p : peer) (h : frame) (v : N) | HOpened (p : peer) (d : bool) (h : frame) (k : N)
                | HClosed (p : peer) (k : option N) | HFail (p : peer) (e : N).
 
+(* A Connection task: running (Connection::start), or inside close_connection waiting for the close of its inbound
+   / outbound substream to complete (notify: the protocol will be told), or finished *)
+Inductive phase := PRun | PCloseIn (notify : bool) | PCloseOut (notify : bool) | PDone.
+
 Record task := mkT {
-  t_id : N; t_peer : peer; t_alive : bool;
+  t_id : N; t_peer : peer; t_ph : phase;
   t_shut : bool;             (* the shutdown sender was used or dropped *)
   t_in : sub; t_out : sub;
   t_q : list frame;          (* sync_rx *)
+  t_res : bool;              (* its PollSender holds a slot of the handle's channel *)
+  t_nosink : bool;           (* every clone of its NotificationSink has been dropped: its queues are closed *)
   t_fwd : list frame         (* ghost: frames it handed to the channel of the NotificationHandle *)
 }.
+Definition t_alive (t : task) : bool := match t_ph t with PDone => false | _ => true end.
+Definition t_running (t : task) : bool := match t_ph t with PRun => true | _ => false end.
 
 Record st := mkSt {
   ps : peer -> option pstate;          (* NotificationProtocol.peers *)
@@ -153,75 +164,82 @@ Record st := mkSt {
   ncar : N;
   hc : peer -> bool;                   (* harness: connection injected and not closed *)
   hpend : peer -> list sid;            (* harness: unanswered open_substream requests *)
-  stuck : bool                         (* a debug_assert!(false) of the Rust code was reached *)
+  stuck : bool;                        (* a debug_assert!(false) of the Rust code was reached *)
+  hdrop : bool;                        (* the user has dropped the NotificationHandle *)
+  exited : bool                        (* next_event has returned `true`: the event loop has ended *)
 }.
 
 Definition upd {A} (f : peer -> A) (p : peer) (v : A) : peer -> A := fun q => if q =? p then v else f q.
 
 Definition init : st :=
   mkSt (fun _ => None) [] (fun _ => None) (fun _ => None) [] (fun _ => false) 0 [] [] [] [] 0 [] [] [] []
-       (fun _ => None) (fun _ => None) [] 0 (fun _ => false) (fun _ => []) false.
+       (fun _ => None) (fun _ => None) [] 0 (fun _ => false) (fun _ => []) false false false.
 
 (* ---- setters ---- *)
 Definition set_ps (s : st) (p : peer) (v : option pstate) : st :=
   mkSt (upd (ps s) p v) (pend s) (hin s) (hout s) (ready s) (conn s) (nsid s) (sq s) (shq s) (vq s) (vwait s) (nvid s) (cq s)
-       (tasks s) (evq s) (nq s) (hsink s) (hval s) (grave s) (ncar s) (hc s) (hpend s) (stuck s).
+       (tasks s) (evq s) (nq s) (hsink s) (hval s) (grave s) (ncar s) (hc s) (hpend s) (stuck s) (hdrop s) (exited s).
 Definition set_pend (s : st) (l : list (sid * peer)) : st :=
   mkSt (ps s) l (hin s) (hout s) (ready s) (conn s) (nsid s) (sq s) (shq s) (vq s) (vwait s) (nvid s) (cq s)
-       (tasks s) (evq s) (nq s) (hsink s) (hval s) (grave s) (ncar s) (hc s) (hpend s) (stuck s).
+       (tasks s) (evq s) (nq s) (hsink s) (hval s) (grave s) (ncar s) (hc s) (hpend s) (stuck s) (hdrop s) (exited s).
 Definition set_hs (s : st) (i o : peer -> option hent) (r : list (peer * bool * frame)) : st :=
   mkSt (ps s) (pend s) i o r (conn s) (nsid s) (sq s) (shq s) (vq s) (vwait s) (nvid s) (cq s)
-       (tasks s) (evq s) (nq s) (hsink s) (hval s) (grave s) (ncar s) (hc s) (hpend s) (stuck s).
+       (tasks s) (evq s) (nq s) (hsink s) (hval s) (grave s) (ncar s) (hc s) (hpend s) (stuck s) (hdrop s) (exited s).
 Definition set_conn (s : st) (p : peer) (b : bool) : st :=
   mkSt (ps s) (pend s) (hin s) (hout s) (ready s) (upd (conn s) p b) (nsid s) (sq s) (shq s) (vq s) (vwait s) (nvid s) (cq s)
-       (tasks s) (evq s) (nq s) (hsink s) (hval s) (grave s) (ncar s) (hc s) (hpend s) (stuck s).
+       (tasks s) (evq s) (nq s) (hsink s) (hval s) (grave s) (ncar s) (hc s) (hpend s) (stuck s) (hdrop s) (exited s).
 Definition set_nsid (s : st) (n : N) : st :=
   mkSt (ps s) (pend s) (hin s) (hout s) (ready s) (conn s) n (sq s) (shq s) (vq s) (vwait s) (nvid s) (cq s)
-       (tasks s) (evq s) (nq s) (hsink s) (hval s) (grave s) (ncar s) (hc s) (hpend s) (stuck s).
+       (tasks s) (evq s) (nq s) (hsink s) (hval s) (grave s) (ncar s) (hc s) (hpend s) (stuck s) (hdrop s) (exited s).
 Definition set_sq (s : st) (l : list sev) : st :=
   mkSt (ps s) (pend s) (hin s) (hout s) (ready s) (conn s) (nsid s) l (shq s) (vq s) (vwait s) (nvid s) (cq s)
-       (tasks s) (evq s) (nq s) (hsink s) (hval s) (grave s) (ncar s) (hc s) (hpend s) (stuck s).
+       (tasks s) (evq s) (nq s) (hsink s) (hval s) (grave s) (ncar s) (hc s) (hpend s) (stuck s) (hdrop s) (exited s).
 Definition set_shq (s : st) (l : list peer) : st :=
   mkSt (ps s) (pend s) (hin s) (hout s) (ready s) (conn s) (nsid s) (sq s) l (vq s) (vwait s) (nvid s) (cq s)
-       (tasks s) (evq s) (nq s) (hsink s) (hval s) (grave s) (ncar s) (hc s) (hpend s) (stuck s).
+       (tasks s) (evq s) (nq s) (hsink s) (hval s) (grave s) (ncar s) (hc s) (hpend s) (stuck s) (hdrop s) (exited s).
 Definition set_vals (s : st) (q w : list vent) (n : N) : st :=
   mkSt (ps s) (pend s) (hin s) (hout s) (ready s) (conn s) (nsid s) (sq s) (shq s) q w n (cq s)
-       (tasks s) (evq s) (nq s) (hsink s) (hval s) (grave s) (ncar s) (hc s) (hpend s) (stuck s).
+       (tasks s) (evq s) (nq s) (hsink s) (hval s) (grave s) (ncar s) (hc s) (hpend s) (stuck s) (hdrop s) (exited s).
 Definition set_cq (s : st) (l : list cmd) : st :=
   mkSt (ps s) (pend s) (hin s) (hout s) (ready s) (conn s) (nsid s) (sq s) (shq s) (vq s) (vwait s) (nvid s) l
-       (tasks s) (evq s) (nq s) (hsink s) (hval s) (grave s) (ncar s) (hc s) (hpend s) (stuck s).
+       (tasks s) (evq s) (nq s) (hsink s) (hval s) (grave s) (ncar s) (hc s) (hpend s) (stuck s) (hdrop s) (exited s).
 Definition set_tasks (s : st) (l : list task) : st :=
   mkSt (ps s) (pend s) (hin s) (hout s) (ready s) (conn s) (nsid s) (sq s) (shq s) (vq s) (vwait s) (nvid s) (cq s)
-       l (evq s) (nq s) (hsink s) (hval s) (grave s) (ncar s) (hc s) (hpend s) (stuck s).
+       l (evq s) (nq s) (hsink s) (hval s) (grave s) (ncar s) (hc s) (hpend s) (stuck s) (hdrop s) (exited s).
 Definition set_evq (s : st) (l : list hev) : st :=
   mkSt (ps s) (pend s) (hin s) (hout s) (ready s) (conn s) (nsid s) (sq s) (shq s) (vq s) (vwait s) (nvid s) (cq s)
-       (tasks s) l (nq s) (hsink s) (hval s) (grave s) (ncar s) (hc s) (hpend s) (stuck s).
+       (tasks s) l (nq s) (hsink s) (hval s) (grave s) (ncar s) (hc s) (hpend s) (stuck s) (hdrop s) (exited s).
 Definition set_nq (s : st) (l : list (peer * N * frame)) : st :=
   mkSt (ps s) (pend s) (hin s) (hout s) (ready s) (conn s) (nsid s) (sq s) (shq s) (vq s) (vwait s) (nvid s) (cq s)
-       (tasks s) (evq s) l (hsink s) (hval s) (grave s) (ncar s) (hc s) (hpend s) (stuck s).
+       (tasks s) (evq s) l (hsink s) (hval s) (grave s) (ncar s) (hc s) (hpend s) (stuck s) (hdrop s) (exited s).
 Definition set_hsink (s : st) (p : peer) (v : option N) : st :=
   mkSt (ps s) (pend s) (hin s) (hout s) (ready s) (conn s) (nsid s) (sq s) (shq s) (vq s) (vwait s) (nvid s) (cq s)
-       (tasks s) (evq s) (nq s) (upd (hsink s) p v) (hval s) (grave s) (ncar s) (hc s) (hpend s) (stuck s).
+       (tasks s) (evq s) (nq s) (upd (hsink s) p v) (hval s) (grave s) (ncar s) (hc s) (hpend s) (stuck s) (hdrop s) (exited s).
 Definition set_hval (s : st) (p : peer) (v : option N) : st :=
   mkSt (ps s) (pend s) (hin s) (hout s) (ready s) (conn s) (nsid s) (sq s) (shq s) (vq s) (vwait s) (nvid s) (cq s)
-       (tasks s) (evq s) (nq s) (hsink s) (upd (hval s) p v) (grave s) (ncar s) (hc s) (hpend s) (stuck s).
+       (tasks s) (evq s) (nq s) (hsink s) (upd (hval s) p v) (grave s) (ncar s) (hc s) (hpend s) (stuck s) (hdrop s) (exited s).
 Definition set_grave (s : st) (l : list sub) : st :=
   mkSt (ps s) (pend s) (hin s) (hout s) (ready s) (conn s) (nsid s) (sq s) (shq s) (vq s) (vwait s) (nvid s) (cq s)
-       (tasks s) (evq s) (nq s) (hsink s) (hval s) l (ncar s) (hc s) (hpend s) (stuck s).
+       (tasks s) (evq s) (nq s) (hsink s) (hval s) l (ncar s) (hc s) (hpend s) (stuck s) (hdrop s) (exited s).
 Definition set_ncar (s : st) (n : N) : st :=
   mkSt (ps s) (pend s) (hin s) (hout s) (ready s) (conn s) (nsid s) (sq s) (shq s) (vq s) (vwait s) (nvid s) (cq s)
-       (tasks s) (evq s) (nq s) (hsink s) (hval s) (grave s) n (hc s) (hpend s) (stuck s).
+       (tasks s) (evq s) (nq s) (hsink s) (hval s) (grave s) n (hc s) (hpend s) (stuck s) (hdrop s) (exited s).
 Definition set_hc (s : st) (p : peer) (b : bool) : st :=
   mkSt (ps s) (pend s) (hin s) (hout s) (ready s) (conn s) (nsid s) (sq s) (shq s) (vq s) (vwait s) (nvid s) (cq s)
-       (tasks s) (evq s) (nq s) (hsink s) (hval s) (grave s) (ncar s) (upd (hc s) p b) (hpend s) (stuck s).
+       (tasks s) (evq s) (nq s) (hsink s) (hval s) (grave s) (ncar s) (upd (hc s) p b) (hpend s) (stuck s) (hdrop s) (exited s).
 Definition set_hpend (s : st) (p : peer) (l : list sid) : st :=
   mkSt (ps s) (pend s) (hin s) (hout s) (ready s) (conn s) (nsid s) (sq s) (shq s) (vq s) (vwait s) (nvid s) (cq s)
-       (tasks s) (evq s) (nq s) (hsink s) (hval s) (grave s) (ncar s) (hc s) (upd (hpend s) p l) (stuck s).
+       (tasks s) (evq s) (nq s) (hsink s) (hval s) (grave s) (ncar s) (hc s) (upd (hpend s) p l) (stuck s) (hdrop s) (exited s).
 Definition set_stuck (s : st) : st :=
   mkSt (ps s) (pend s) (hin s) (hout s) (ready s) (conn s) (nsid s) (sq s) (shq s) (vq s) (vwait s) (nvid s) (cq s)
-       (tasks s) (evq s) (nq s) (hsink s) (hval s) (grave s) (ncar s) (hc s) (hpend s) true.
+       (tasks s) (evq s) (nq s) (hsink s) (hval s) (grave s) (ncar s) (hc s) (hpend s) true (hdrop s) (exited s).
 
-Definition push_ev (s : st) (e : hev) : st := set_evq s (evq s ++ [e]).
+Definition set_flags (s : st) (d x : bool) : st :=
+  mkSt (ps s) (pend s) (hin s) (hout s) (ready s) (conn s) (nsid s) (sq s) (shq s) (vq s) (vwait s) (nvid s) (cq s)
+       (tasks s) (evq s) (nq s) (hsink s) (hval s) (grave s) (ncar s) (hc s) (hpend s) (stuck s) d x.
+
+(* report_* of the NotificationEventHandle: with the handle gone the event (and whatever it carries) is dropped *)
+Definition push_ev (s : st) (e : hev) : st := set_evq s (if hdrop s then evq s else evq s ++ [e]).
 Definition bury (s : st) (x : sub) : st := set_grave s (grave s ++ [x]).
 Definition bury_opt (s : st) (x : option hent) : st :=
   set_grave s (grave s ++ match x with Some e => [e_sub e] | None => [] end).
@@ -332,9 +350,9 @@ Fixpoint find_task (k : N) (l : list task) : option task :=
   match l with [] => None | t :: r => if t_id t =? k then Some t else find_task k r end.
 (* the shutdown sender towards task k is used or dropped *)
 Definition signal (s : st) (k : N) : st :=
-  set_tasks s (map_task k (fun t => mkT (t_id t) (t_peer t) (t_alive t) true (t_in t) (t_out t) (t_q t) (t_fwd t)) (tasks s)).
+  set_tasks s (map_task k (fun t => mkT (t_id t) (t_peer t) (t_ph t) true (t_in t) (t_out t) (t_q t) (t_res t) (t_nosink t) (t_fwd t)) (tasks s)).
 Definition task_closed (s : st) (k : N) : bool :=
-  match find_task k (tasks s) with Some t => negb (t_alive t) | None => true end.
+  match find_task k (tasks s) with Some t => negb (t_running t) | None => true end.
 Definition ntasks (s : st) : N := N.of_nat (length (tasks s)).
 
 (* ---- handlers ---- *)
@@ -489,7 +507,7 @@ Definition hs_finish (s : st) (p : peer) : st :=
   match ps s p with
   | Some (Validating d (OOpen h so) (IOpen si)) =>
       let k := ntasks s in
-      let s1 := set_tasks s (tasks s ++ [mkT k p true false si so [] []]) in
+      let s1 := set_tasks s (tasks s ++ [mkT k p PRun false si so [] false false []]) in
       push_ev (set_ps s1 p (Some (Open k))) (HOpened p d h k)
   | _ => s     (* a 5 s timer is armed; it does not fire within a case *)
   end.
@@ -518,7 +536,7 @@ Definition on_hs_event (fx auto : bool) (s : st) (r : pres) : st :=
               then set_ps (send_hs fx s p y) p (Some (Validating d o ISending))
               else
                 let v := nvid s in
-                let s1 := set_vals s (vq s ++ [mkV v p None]) (vwait s) (v + 1) in
+                let s1 := set_vals s (vq s ++ [mkV v p (if hdrop s then Some None else None)]) (vwait s) (v + 1) in
                 hs_finish (push_ev (set_ps s1 p (Some (Validating d o (IValidating y h)))) (HValidate p h v)) p
           | Validating d o ISending => hs_finish (set_ps s p (Some (Validating d o (IOpen y)))) p
           | _ => set_stuck (bury s y)
@@ -566,6 +584,7 @@ Definition vanswer (s : st) (id : N) (a : option bool) : st :=
 
 (* ---- one poll of next_event ---- *)
 Definition poll (fx auto : bool) (s : st) (ord : list (peer * bool)) : st * N * list call :=
+  if exited s then (s, 0, []) else
   (* 1: the handshake service, if its map is not empty *)
   let '(s, r) := if hs_empty s then (s, PPending) else hs_poll s ord in
   match r with
@@ -601,44 +620,75 @@ Definition poll (fx auto : bool) (s : st) (ord : list (peer * bool)) : st * N * 
   match cq s with
   | CmdOpen p :: t => let '(s1, c) := on_open (set_cq s t) p in (s1, 1, c)
   | CmdClose p :: t => (on_close (set_cq s t) p, 1, [])
-  | [] => (s, 0, [])
+  | [] => if hdrop s then (set_flags s true true, 2, [])    (* the command channel is closed: the event loop ends *)
+          else (s, 0, [])
   end end end end end.
 
 (* ---- one poll of a Connection task (no backpressure: few, small frames) ---- *)
-Definition close_task (s : st) (t : task) (notify : bool) : st :=
-  let s1 := set_tasks s (map_task (t_id t) (fun _ => mkT (t_id t) (t_peer t) false (t_shut t) (t_in t) (t_out t) (t_q t) (t_fwd t)) (tasks s)) in
-  let s2 := if notify then set_shq s1 (shq s1 ++ [t_peer t]) else s1 in
+Definition put_task (s : st) (t : task) : st := set_tasks s (map_task (t_id t) (fun _ => t) (tasks s)).
+Definition with_ph (t : task) (ph : phase) : task :=
+  mkT (t_id t) (t_peer t) ph (t_shut t) (t_in t) (t_out t) (t_q t) (t_res t) (t_nosink t) (t_fwd t).
+
+(* close_connection: the shutdown receiver is closed first; then the inbound substream is closed, then the outbound
+   one (each may take several polls: s_gate); then the protocol is told (notify) and the stream reported closed *)
+Definition close_fin (s : st) (t : task) (n : bool) : st :=
+  let s1 := put_task s (with_ph t PDone) in
+  let s2 := if n then set_shq s1 (shq s1 ++ [t_peer t]) else s1 in
   push_ev s2 (HClosed (t_peer t) (Some (t_id t))).
 
-Fixpoint task_loop (fuel : nat) (s : st) (t : task) : st * bool :=
+Definition close_step (s : st) (t : task) : st :=
+  match t_ph t with
+  | PCloseIn n =>
+      if s_gate (t_in t) then put_task s t
+      else if s_gate (t_out t) then put_task s (with_ph t (PCloseOut n))
+      else close_fin s t n
+  | PCloseOut n => if s_gate (t_out t) then put_task s t else close_fin s t n
+  | _ => s
+  end.
+
+Definition close_task (s : st) (t : task) (notify : bool) : st := close_step s (with_ph t (PCloseIn notify)).
+
+Fixpoint task_loop (fuel : nat) (s : st) (t : task) : st :=
   match fuel with
-  | O => (s, false)
+  | O => s
   | S f =>
-      if t_shut t then (close_task s t false, true)
-      else if s_werr (t_out t) then (close_task s t true, true)
+      if t_shut t then close_task s t false
+      (* the select! over the two queues ends with None when every sink is gone *)
+      else if t_nosink t then close_task s t true
+      else if s_werr (t_out t) then close_task s t true
       else
-        let t1 := mkT (t_id t) (t_peer t) true false (t_in t) (cn_write (t_out t) (t_q t)) [] (t_fwd t) in
+        let t1 := mkT (t_id t) (t_peer t) PRun false (t_in t) (cn_write (t_out t) (t_q t)) [] (t_res t) (t_nosink t) (t_fwd t) in
+        (* poll_reserve: a slot acquired earlier is still held; a new one cannot be had once the NotificationHandle
+           is gone (the Connection notices the missing handle only when it needs a new slot) *)
+        if hdrop s && negb (t_res t) then close_task s t1 true else
         match s_wire (t_in t1) with
         | fr :: w =>
-            let t2 := mkT (t_id t) (t_peer t) true false (cn_read (t_in t1) fr w) (t_out t1) [] (t_fwd t ++ [fr]) in
-            task_loop f (set_nq (set_tasks s (map_task (t_id t) (fun _ => t2) (tasks s))) (nq s ++ [(t_peer t, t_id t, fr)])) t2
+            let t2 := mkT (t_id t) (t_peer t) PRun false (cn_read (t_in t1) fr w) (t_out t1) [] false (t_nosink t) (t_fwd t ++ [fr]) in
+            task_loop f (set_nq (put_task s t2) (nq s ++ [(t_peer t, t_id t, fr)])) t2
         | [] =>
-            if s_eof (t_in t1) then (close_task (set_tasks s (map_task (t_id t) (fun _ => t1) (tasks s))) t1 true, true)
-            else (set_tasks s (map_task (t_id t) (fun _ => t1) (tasks s)), false)
+            let t3 := mkT (t_id t) (t_peer t) PRun false (t_in t1) (t_out t1) [] true (t_nosink t) (t_fwd t) in
+            if s_eof (t_in t1) then close_task s t3 true else put_task s t3
         end
   end.
 
-Definition task_poll (s : st) (k : N) : st * bool :=
+Definition task_poll (s : st) (k : N) : st :=
   match find_task k (tasks s) with
-  | Some t => if t_alive t then task_loop (S (length (s_wire (t_in t)))) s t else (s, false)
-  | None => (s, false)
+  | Some t =>
+      match t_ph t with
+      | PRun => task_loop (S (length (s_wire (t_in t)))) s t
+      | PCloseIn _ | PCloseOut _ => close_step s t
+      | PDone => s
+      end
+  | None => s
   end.
 
-Fixpoint tasks_poll (s : st) (ks : list N) (done : N) : st * N :=
+Fixpoint tasks_poll (s : st) (ks : list N) : st :=
   match ks with
-  | [] => (s, done)
-  | k :: r => let '(s1, d) := task_poll s k in tasks_poll s1 r (if d then done + 1 else done)
+  | [] => s
+  | k :: r => tasks_poll (task_poll s k) r
   end.
+
+Definition nalive (s : st) : N := N.of_nat (length (filter t_alive (tasks s))).
 
 (* ---- NotificationHandle::poll_next ---- *)
 Inductive uev := UNone | UValidate (p : peer) (h : frame) | UOpened (p : peer) (d : bool) (h : frame)
@@ -647,7 +697,7 @@ Inductive uev := UNone | UValidate (p : peer) (h : frame) | UOpened (p : peer) (
 Definition opt_eqb (a b : option N) : bool :=
   match a, b with Some x, Some y => x =? y | None, None => true | _, _ => false end.
 
-Fixpoint h_poll (fuel : nat) (s : st) : st * uev :=
+Fixpoint h_poll_live (fuel : nat) (s : st) : st * uev :=
   match fuel with
   | O => (s, UNone)
   | S f =>
@@ -660,7 +710,7 @@ Fixpoint h_poll (fuel : nat) (s : st) : st * uev :=
                          | Some _, None => true
                          | None, _ => false
                          end in
-          if current then (set_hsink s p None, UClosed p) else h_poll f s
+          if current then (set_hsink s p None, UClosed p) else h_poll_live f s
       | HValidate p h v :: es =>
           let s := set_evq s es in
           let s := match hval s p with Some old => vanswer s old None | None => s end in
@@ -670,11 +720,25 @@ Fixpoint h_poll (fuel : nat) (s : st) : st * uev :=
           match nq s with
           | (p, k, fr) :: t =>
               let s := set_nq s t in
-              if opt_eqb (hsink s p) (Some k) then (s, UNotif p fr) else h_poll f s
+              if opt_eqb (hsink s p) (Some k) then (s, UNotif p fr) else h_poll_live f s
           | [] => (s, UNone)
           end
       end
   end.
+
+Definition h_poll (fuel : nat) (s : st) : st * uev := if hdrop s then (s, UNone) else h_poll_live fuel s.
+
+(* the user drops the NotificationHandle: the events and notifications still queued go with it, and so do the
+   senders of the validation results (those held by the handle and those inside queued ValidateSubstream events) *)
+Definition drop_handle (s : st) : st :=
+  let s1 := fold_left (fun a p => match hval a p with Some v => vanswer a v None | None => a end) PEERS s in
+  let s2 := fold_left (fun a e => match e with HValidate _ _ v => vanswer a v None | _ => a end) (evq s1) s1 in
+  (* the sink inside a NotificationStreamOpened event the user never saw is the only one of its stream *)
+  let lost (k : N) := existsb (fun e => match e with HOpened _ _ _ k' => k' =? k | _ => false end) (evq s) in
+  let s3 := set_tasks s2 (map (fun t => if lost (t_id t)
+                                        then mkT (t_id t) (t_peer t) (t_ph t) (t_shut t) (t_in t) (t_out t) (t_q t) (t_res t) true (t_fwd t)
+                                        else t) (tasks s2)) in
+  set_flags (set_nq (set_evq s3 []) []) true (exited s3).
 
 (* ---- the environment touches a carrier, wherever the substream is ---- *)
 Definition map_inb (f : sub -> sub) (i : inb) : inb :=
@@ -687,13 +751,13 @@ Definition map_hent (f : sub -> sub) (e : hent) : hent := mkE (e_stage e) (f (e_
 Definition map_sev (f : sub -> sub) (e : sev) : sev :=
   match e with EvIn p s => EvIn p (f s) | EvOut p x s => EvOut p x (f s) | y => y end.
 Definition map_tsk (f : sub -> sub) (t : task) : task :=
-  mkT (t_id t) (t_peer t) (t_alive t) (t_shut t) (f (t_in t)) (f (t_out t)) (t_q t) (t_fwd t).
+  mkT (t_id t) (t_peer t) (t_ph t) (t_shut t) (f (t_in t)) (f (t_out t)) (t_q t) (t_res t) (t_nosink t) (t_fwd t).
 
 Definition map_all (f : sub -> sub) (s : st) : st :=
   mkSt (fun p => option_map (map_pstate f) (ps s p)) (pend s)
        (fun p => option_map (map_hent f) (hin s p)) (fun p => option_map (map_hent f) (hout s p)) (ready s)
        (conn s) (nsid s) (map (map_sev f) (sq s)) (shq s) (vq s) (vwait s) (nvid s) (cq s)
-       (map (map_tsk f) (tasks s)) (evq s) (nq s) (hsink s) (hval s) (map f (grave s)) (ncar s) (hc s) (hpend s) (stuck s).
+       (map (map_tsk f) (tasks s)) (evq s) (nq s) (hsink s) (hval s) (map f (grave s)) (ncar s) (hc s) (hpend s) (stuck s) (hdrop s) (exited s).
 
 (* ---- operations ---- *)
 Inductive op :=
@@ -701,7 +765,7 @@ Inductive op :=
 | OEnv (id : N) (x : envk)
 | OPoll (ord : list (peer * bool))
 | OUOpen (p : peer) | OUClose (p : peer) | OUVal (p : peer) (a : bool)
-| OTasks | OUPoll | OUSend (p : peer) (t : frame).
+| OTasks | OUPoll | OUSend (p : peer) (t : frame) | OUDrop.
 
 Inductive ores := RCode (v : N) | RUser (e : uev).
 
@@ -728,32 +792,37 @@ Definition step (fx auto : bool) (s : st) (o : op) : st * ores * list call :=
       else (s, RCode 0, [])
   | OEnv id x => (map_all (touch id x) s, RCode 0, [])
   | OPoll ord => let '(s1, r, c) := poll fx auto s ord in (s1, RCode r, c)
+  | OUDrop => if hdrop s then (s, RCode 0, []) else (drop_handle s, RCode 0, [])
   | OUOpen p =>
+      if hdrop s then (s, RCode 0, []) else
       match hsink s p with
       | Some _ => (s, RCode 1, [])
       | None => (set_cq s (cq s ++ [CmdOpen p]), RCode 0, [])
       end
   | OUClose p =>
+      if hdrop s then (s, RCode 0, []) else
       match hsink s p with
       | Some _ => (set_cq s (cq s ++ [CmdClose p]), RCode 0, [])
       | None => (s, RCode 0, [])
       end
   | OUVal p a =>
+      if hdrop s then (s, RCode 0, []) else
       match hval s p with
       | Some v => (vanswer (set_hval s p None) v (Some a), RCode 0, [])
       | None => (s, RCode 0, [])
       end
-  | OTasks => let '(s1, d) := tasks_poll s (map t_id (tasks s)) 0 in (s1, RCode d, [])
+  | OTasks => let s1 := tasks_poll s (map t_id (tasks s)) in (s1, RCode (nalive s - nalive s1), [])
   | OUPoll => let '(s1, e) := h_poll (S (length (evq s) + length (nq s))) s in (s1, RUser e, [])
   | OUSend p t =>
+      if hdrop s then (s, RCode 0, []) else
       match hsink s p with
       | None => (s, RCode 0, [])
       | Some k =>
           match find_task k (tasks s) with
           | Some tk =>
               if t_alive tk
-              then (set_tasks s (map_task k (fun t0 => mkT (t_id t0) (t_peer t0) (t_alive t0) (t_shut t0) (t_in t0) (t_out t0)
-                                                             (t_q t0 ++ [t]) (t_fwd t0)) (tasks s)), RCode 0, [])
+              then (set_tasks s (map_task k (fun t0 => mkT (t_id t0) (t_peer t0) (t_ph t0) (t_shut t0) (t_in t0) (t_out t0)
+                                                             (t_q t0 ++ [t]) (t_res t0) (t_nosink t0) (t_fwd t0)) (tasks s)), RCode 0, [])
               else (s, RCode 1, [])
           | None => (s, RCode 1, [])
           end
